@@ -263,6 +263,31 @@ func regexUniverse() *ExecUniverse {
 			}
 		}
 	}
+	// several like_regex predicates in one path: each keeps its own pattern and flags
+	pair := func(p1 string, f1 wire.Flags, p2 string, f2 wire.Flags) {
+		cur := []wire.Node{{K: "cur"}}
+		r1 := wire.Node{K: "regex", X: cur, Pat: wire.Bytes(p1), Flags: f1}
+		r2 := wire.Node{K: "regex", X: cur, Pat: wire.Bytes(p2), Flags: f2}
+		or := wire.Node{K: "bin", Op: "or", L: []wire.Node{r1}, R: []wire.Node{r2}}
+		and := wire.Node{K: "bin", Op: "and", L: []wire.Node{r1}, R: []wire.Node{r2}}
+		n1 := wire.Node{K: "un", Op: "not", X: []wire.Node{r1}}
+		andn := wire.Node{K: "bin", Op: "and", L: []wire.Node{n1}, R: []wire.Node{r2}}
+		for _, chain := range [][]wire.Node{
+			{{K: "root"}, {K: "anyarr"}, {K: "filter", P: &or}},
+			{{K: "root"}, {K: "anyarr"}, {K: "filter", P: &and}},
+			{{K: "root"}, {K: "anyarr"}, {K: "filter", P: &andn}},
+			{{K: "root"}, {K: "anyarr"}, {K: "filter", P: &r1}, {K: "filter", P: &r2}},
+		} {
+			ru.Paths = append(ru.Paths, PathRow{Chain: chain})
+			ru.Cases = append(ru.Cases, CaseRef{PI: len(ru.Paths), DI: 1, VI: 1, Lax: true, Zone: "UTC"}, CaseRef{PI: len(ru.Paths), DI: 1, VI: 1, Lax: false, Zone: "UTC"})
+		}
+	}
+	pair("^a", wire.Flags{}, "b$", wire.Flags{})
+	pair("b$", wire.Flags{}, "^a", wire.Flags{})
+	pair("a", wire.Flags{I: true}, "A", wire.Flags{})
+	pair("a.b", wire.Flags{Q: true}, "a.b", wire.Flags{})
+	pair("^b", wire.Flags{M: true}, "^b", wire.Flags{})
+	pair("a.b", wire.Flags{S: true}, "a.b", wire.Flags{})
 	return ru
 }
 
